@@ -564,6 +564,24 @@ theorem decorator_exactly_one_reaches_partial (w : Nat) (k : κ) (r : Repo κ) (
         · exact ih
     exact gen _ hc
 
+/-! ## one Deduplicator, one state -/
+
+/-- **wrappers built from one Deduplicator share its state**: a key that got through the middleware is a duplicate for the
+    publisher decorator working on the same repository (acked, not forwarded) … -/
+theorem middleware_then_decorator_drops {ρ : Type} (w : Nat) (r : Repo κ) (k : κ) (now now' id : Nat) (h : ρ) (f : Bool)
+    (hp : present r k = false) :
+    (decorate w (middleware w r (.key k) now h).1 [⟨id, .key k, now'⟩] f).2 =
+      ⟨[id], some [], if f then .inner else .none⟩ := by
+  have hq : present ((k, now + w) :: r) k = true := (present_iff _ k).mpr ⟨now + w, List.mem_cons_self⟩
+  simp [middleware, dIsDup, isDup, hp, mwDecide, decorate, decLoop, hq]
+
+/-- … and a key that the decorator forwarded is dropped as a success by the middleware -/
+theorem decorator_then_middleware_drops {ρ : Type} (w : Nat) (r : Repo κ) (k : κ) (now now' id : Nat) (h : ρ) (f : Bool)
+    (hp : present r k = false) :
+    (middleware w (decorate w r [⟨id, .key k, now⟩] f).1 (.key k) now' h).2 = (.dropped, 0) := by
+  have hq : present ((k, now + w) :: r) k = true := (present_iff _ k).mpr ⟨now + w, List.mem_cons_self⟩
+  simp [middleware, dIsDup, isDup, hp, mwDecide, decorate, decLoop, hq]
+
 /-! ## the map really is a map -/
 
 /-- in every reachable repository every key has at most one entry (the association list is a faithful `map`) -/
